@@ -1036,7 +1036,8 @@ func sizeMarshalUnit(prog *Program, ms *MsgSchema, closure string, o smOpts) (u 
 						implies(and("(<= 0 "+k+")", "(< "+k+" "+dv.Len+")"), "(= (select "+ra+" "+c.addIdx(b.Off, c.addIdx(in.Len, k))+") (select "+da+" "+c.addIdx(dv.Off, k)+"))")))
 				c.addObl(Obl{Name: fmt.Sprintf("%s/epilogue/ensures[Buf == old(input.Buf) ++ dAtA]@ret%d", u.Name, i+1), Kind: "ensures", Guard: r.St.guard, Goal: goal, Pos: c.pos(r.Pos), Text: "the returned buffer is the caller's bytes, unchanged, followed by exactly the encoding"})
 				if o.frame {
-					okProv := b.Prov == "fresh" || b.Prov == "input" || strings.HasPrefix(b.Prov, "param")
+					bp := c.resolveProv(b.Prov)
+					okProv := bp == "fresh" || bp == "input" || strings.HasPrefix(bp, "param")
 					u.Grounds = append(u.Grounds, Ground{Name: fmt.Sprintf("%s/epilogue/provenance[result]@ret%d", u.Name, i+1), OK: okProv, Text: "returned bytes are the fresh dAtA or the caller's buffer, never memory of the message (provenance " + b.Prov + ")"})
 				}
 			}
